@@ -1171,7 +1171,8 @@ class Score:
         """
         from musiclang.transform import create_counterpoint_on_score
         # Extract drums
-        drums = self.get_instrument_names(['drums_0'])
+        # every drum kit that remove_drums takes out (drums_0, drums_8 ...), so that all of them are put back
+        drums = self.get_instrument_names([ins.split('__')[0] for ins in self.instruments if ins.startswith('drums')])
         score_without_drums = self.remove_drums()
         score = create_counterpoint_on_score(score_without_drums, fixed_parts=fixed_parts)
         # Reproject drums
